@@ -14,6 +14,8 @@ def queries(tier):
           cs.misc('time_interp', tier, bound='every in-bounds pair, t in [0,1]', backends=('cadical', 'kissat')),
           cs.misc('discrete_interp', tier, bound='bounds within [-15,15], every pair, t in [0,1]', backends=('cadical', 'kissat'), defines={'DRANGE': 15})]
     qs.append(cs.compound('interpolate', tier, bound='3 stub components, every t'))
+    if tier == 'thorough': qs.append(cs.so3('same_rotation_interp', tier, timeout=1800, bound='every in-bounds quaternion q interpolated towards q and -q (distance 0), every t', backends=('cadical', 'kissat')))
+    if tier == 'thorough': qs.append(cs.so3('zero_angle', tier, bound='every pair of in-bounds quaternions at distance 0, every t', extra_cbmc=('-DVT_SQRT_ACCURATE',), backends=('cadical', 'kissat'), timeout=1800))
     for al in (1, 2):
         q = cs.so2('interp_alias', tier, bound='every in-bounds pair, every t in [0,1]; output aliases input %d' % al, defines={'ALIAS': al}, uf=('fmul', 'fadd', 'fsub'),
                    note='fmul, fadd, fsub abstracted by uninterpreted functions (sound for this equality claim)')
